@@ -181,12 +181,12 @@ Definition ex_root (s : N) : N := 100 + s.
 Definition ex_e (p g r c : N) (o : list (N * bytes)) : entry N := Build_entry N p g r c o.
 Definition ex_w7 : wline N N :=
   Build_wline N N 0 100 500
-    [ex_e 1 1 101 501 [(3, [1; 2]); (1, [9])]; ex_e 2 2 103 503 []; ex_e 4 5 107 507 [(2, [7])]] None.
-Definition ex_w9 : wline N N := Build_wline N N 0 100 500 [ex_e 1 1 101 501 []] (Some (77, LAtAnchor)).
+    [ex_e 1 1 101 501 [(3, [1; 2]); (1, [9])]; ex_e 2 2 103 503 []; ex_e 4 5 107 507 [(2, [7])]] None [1].
+Definition ex_w9 : wline N N := Build_wline N N 0 100 500 [ex_e 1 1 101 501 []] (Some (77, LAtAnchor)) [].
 Definition ex_W : world N N := Build_world N N [(7, ex_w7); (9, ex_w9)] 5 [(4, Build_aplan 1 2 3 4 5 6)].
 Definition ex_W' : world N N :=
   Build_world N N [(9, ex_w9);
-                   (7, Build_wline N N 0 100 500 (w_hist ex_w7 ++ [ex_e 8 9 115 515 [(1, [1])]]) None)] 9
+                   (7, Build_wline N N 0 100 500 (w_hist ex_w7 ++ [ex_e 8 9 115 515 [(1, [1])]]) None [])] 9
               [(4, Build_aplan 1 2 3 4 5 6)].
 Definition ex_req (a : at_) (f : frame) (p : proj) (b : bplan) : request :=
   Build_request 7 a f p (OBuiltin b) None BUnbounded RPublic.
@@ -210,9 +210,10 @@ Example c16_nonvacuous :
   (* strand child: historical posture; optic bridge reads and obstructs *)
   (exists a, observe ex_W (Build_request 9 (ATick 0) FCommitBoundary PHead (OBuiltin BHead) None BUnbounded RPublic) = Reading a /\
              a_posture a = PoHistorical 77) /\
-  (exists a, observe_optic ex_W (Build_optic_request (FoWorldline 7) (CoWorldline 7 OcFrontier) ShHead (Some 4096) (Some 1) None DBoundaryOnly) = OReading a /\
+  (exists a, observe_optic ex_W (Build_optic_request (FoWorldline 7) (CoWorldline 7 OcFrontier) ShHead (Some 4096) (Some 2) None DBoundaryOnly) = OReading a /\
              rs_tick (a_resolved a) = 3 /\ rs_root (a_resolved a) = 107) /\
   observe_optic ex_W (Build_optic_request (FoWorldline 7) (CoWorldline 7 (OcTick 3)) ShHead (Some 4096) (Some 1) None DBoundaryOnly) = OObstructed OMissingWitness /\
+  observe_optic ex_W (Build_optic_request (FoWorldline 7) (CoWorldline 7 OcFrontier) ShHead (Some 4096) (Some 1) None DBoundaryOnly) = OObstructed OLiveTailRequiresReduction /\
   (* the artifact identity preimage is domain-separated canonical CBOR: it starts with the domain string and a 5-entry map *)
   (exists a, observe ex_W (ex_req AFrontier FCommitBoundary PHead BHead) = Reading a /\
              firstn 5 (artifact_preimage a) = [101; 99; 104; 111; 58] /\ nth 29 (artifact_preimage a) 0 = 165).
@@ -228,6 +229,7 @@ Proof.
   split; [vm_compute; reflexivity|].
   split; [eexists; split; [vm_compute; reflexivity|reflexivity]|].
   split; [eexists; split; [vm_compute; reflexivity|split; reflexivity]|].
+  split; [vm_compute; reflexivity|].
   split; [vm_compute; reflexivity|].
   eexists; split; [vm_compute; reflexivity|split; vm_compute; reflexivity].
 Qed.
